@@ -791,6 +791,23 @@ def returned_job(which):
             scribble(pt.get_mpo_tensor(1, transformed=False))
             scribble(pt.get_cap_tensor(1))
             after = run()
+        elif which.startswith("operators."):
+            # the operator factories: whatever the caller does with a matrix he got (a *= g, a[0, 1] = ...), the next request
+            # for the same operator gives the operator
+            from oqupy import operators as ops_
+            name = which.split(".")[1]
+            calls = {"identity": [(ops_.identity, 3)], "sigma": [(ops_.sigma, k) for k in ("id", "x", "y", "z", "+", "-")],
+                     "spin_dm": [(ops_.spin_dm, k) for k in ("up", "down", "x+", "x-", "y+", "y-", "mixed")],
+                     "create": [(ops_.create, 3), (ops_.destroy, 3)], "destroy": [(ops_.destroy, 4), (ops_.create, 4)]}[name]
+            before = np.concatenate([np.array(f(a_), dtype=complex).reshape(-1) for f, a_ in calls])
+            for f, a_ in calls:
+                m_ = f(a_)
+                try:
+                    m_ *= 3.0
+                    m_[0, -1] = 7.0
+                except (ValueError, TypeError):
+                    pass
+            after = np.concatenate([np.array(f(a_), dtype=complex).reshape(-1) for f, a_ in calls])
         elif which == "GibbsTempo.get_state":
             g = oqupy.GibbsTempo(oqupy.System(0.4 * sx + 0.2 * sz), oqupy.Bath(np.diag([0.5, -0.5]), oqupy.PowerLawSD(
                 alpha=0.1, zeta=1.0, cutoff=2.0, cutoff_type="exponential", temperature=0.7)), oqupy.GibbsParameters(4, 1e-9))
@@ -847,7 +864,8 @@ def returned_job(which):
 
 RETURNED = ["System.liouvillian", "System.hamiltonian", "System.gammas", "System.lindblad_operators", "Bath.coupling_operator",
             "Bath.unitary_transform", "Bath.north_degeneracy_map", "Bath.west_degeneracy_map",
-            "Dynamics.states", "GibbsTempo.get_state", "PtTebd(parameters)", "Tempo(parameters)"]
+            "Dynamics.states", "GibbsTempo.get_state", "PtTebd(parameters)", "Tempo(parameters)",
+            "operators.identity", "operators.sigma", "operators.spin_dm", "operators.create", "operators.destroy"]
 # not in the list: SimpleProcessTensor.get_mpo_tensor / get_cap_tensor hand out the stored arrays themselves.  A process tensor
 # is a mutable container (set_mpo_tensor), writing through the getter's array is another way of changing its content; C20 does
 # not forbid it (recorded in DESIGN.md 12.7 as an observation).
